@@ -1361,3 +1361,254 @@ Proof.
   destruct (IH a1 a2 H1) as [G1 G2].
   destruct (st_run rt ops a1) as [b1 r1], (st_run rt ops a2) as [b2 r2]. cbn [fst snd] in *. split; [exact G1|congruence].
 Qed.
+
+(* ------------------------------------------------------------------------------------------ *)
+(* keys_are_nodes: every stored tree key of a live series is a node of its segment tree, and the
+   delete walk with threshold maxTime reports every node                                        *)
+
+Fixpoint nkeys (lvl : nat) (n : snode) {struct lvl} : list skey :=
+  (lvl, sn_time n) ::
+  match lvl with
+  | O => []
+  | S l => flat_map (fun o => match o with Some c => nkeys l c | None => [] end) (sn_ch n)
+  end.
+Definition okeysN (l : nat) (ch : list (option snode)) : list skey :=
+  flat_map (fun o => match o with Some c => nkeys l c | None => [] end) ch.
+Definition s_nkeys (s : segment) : list skey := match s_root s with Some (lvl, n) => nkeys lvl n | None => [] end.
+
+Lemma nkeys_S l t p s w ch : nkeys (S l) (SNode t p s w ch) = (S l, t) :: okeysN l ch.
+Proof. reflexivity. Qed.
+Lemma nkeys_head lvl n : In (lvl, sn_time n) (nkeys lvl n).
+Proof. destruct lvl; left; reflexivity. Qed.
+
+Lemma okeysN_in l ch k : In k (okeysN l ch) <-> exists c, In (Some c) ch /\ In k (nkeys l c).
+Proof.
+  unfold okeysN. rewrite in_flat_map. split.
+  - intros ([c|] & H1 & H2); [exists c; auto|destruct H2].
+  - intros (c & H1 & H2). exists (Some c). auto.
+Qed.
+
+Lemma fill_children_keeps l base a b c : forall ch i, In (Some c) ch -> In (Some c) (fill_children l base a b i ch).
+Proof.
+  induction ch as [|o ch IH]; intros i H; [destruct H|]. cbn [fill_children]. destruct H as [->|H]; [left; reflexivity|].
+  right. apply IH, H.
+Qed.
+
+Lemma put_children_in l a b smp c ch : In (Some c) ch ->
+  In (Some (fst (s_put_node l a b smp c))) (map fst (map (put_child l a b smp) ch)).
+Proof.
+  intros H. rewrite map_map. apply in_map_iff. exists (Some c). split; [|exact H].
+  cbn [put_child]. destruct (s_put_node l a b smp c). reflexivity.
+Qed.
+
+Lemma put_node_nkeys : forall lvl a b smp n,
+  (forall k, In k (nkeys lvl n) -> In k (nkeys lvl (fst (s_put_node lvl a b smp n)))) /\
+  Forall (fun cb => In (pc_key cb) (nkeys lvl (fst (s_put_node lvl a b smp n)))) (snd (s_put_node lvl a b smp n)).
+Proof.
+  induction lvl as [|l IH]; intros a b smp [t p s w ch].
+  - rewrite put_node_unfold_0. cbv zeta. destruct (is_outside _); [split; [auto|constructor]|]. cbn [fst snd]. split.
+    + intros k H. exact H.
+    + destruct (covers _ || _ || p); [|constructor]. constructor; [|constructor]. left. reflexivity.
+  - rewrite put_node_unfold_S. cbv zeta. destruct (is_outside _); [split; [auto|constructor]|]. cbn [fst snd].
+    set (ch1 := if creates _ then fill_children l (trunc_to (S l) t) a b 0 ch else ch).
+    assert (Hch1 : forall c, In (Some c) ch -> In (Some c) ch1).
+    { intros c H. unfold ch1. destruct (creates _); [apply fill_children_keeps, H|exact H]. }
+    split.
+    + intros k. rewrite !nkeys_S. intros [<-|H]; [left; reflexivity|right].
+      apply okeysN_in in H. destruct H as (c & Hc & Hk). apply okeysN_in.
+      exists (fst (s_put_node l a b smp c)). split; [apply put_children_in, Hch1, Hc|]. apply (IH a b smp c), Hk.
+    + apply Forall_app. split.
+      * destruct (covers _ || _ || p); [|constructor]. constructor; [|constructor]. rewrite nkeys_S. left. reflexivity.
+      * rewrite nkeys_S. apply Forall_forall. intros cb Hcb. right.
+        apply in_concat in Hcb. destruct Hcb as (cbs & Hcbs & Hin). rewrite map_map in Hcbs.
+        apply in_map_iff in Hcbs. destruct Hcbs as ([c|] & <- & Ho); [|destruct Hin].
+        apply okeysN_in. exists (fst (s_put_node l a b smp c)). split; [apply put_children_in, Ho|].
+        destruct (IH a b smp c) as [_ H]. rewrite Forall_forall in H. apply H.
+        cbn [put_child] in Hin. destruct (s_put_node l a b smp c). exact Hin.
+Qed.
+
+Lemma list_set_in {A} (x : A) : forall l i l', list_set i x l = Some l' -> In x l'.
+Proof.
+  induction l as [|y l IH]; intros i l' H; [discriminate|]. cbn [list_set] in H. destruct i as [|i].
+  - injection H as <-. left. reflexivity.
+  - destruct (list_set i x l) as [r|] eqn:E; [|discriminate]. injection H as <-. right. eapply IH, E.
+Qed.
+
+Lemma grow_loop_nkeys a b : forall fuel lvl n k, In k (nkeys lvl n) ->
+  In k (nkeys (fst (s_grow_loop fuel a b lvl n)) (snd (s_grow_loop fuel a b lvl n))).
+Proof.
+  induction fuel as [|f IH]; intros lvl n k H; cbn [s_grow_loop].
+  - destruct (relationship _ _ a b); exact H.
+  - destruct (relationship _ _ a b); try exact H;
+      (destruct (sn_replace lvl _ n) as [root1|] eqn:E; [|exact H]; apply IH;
+       unfold sn_replace in E; destruct (replace_idx _ _ _ <? 0); [discriminate|];
+       destruct (list_set _ (Some n) (repeat None 10)) as [ch'|] eqn:El; [|discriminate]; injection E as <-;
+       rewrite nkeys_S; right; apply okeysN_in; exists n; split; [eapply list_set_in, El|exact H]).
+Qed.
+
+Lemma s_put_nkeys a b smp s :
+  (forall k, In k (s_nkeys s) -> In k (s_nkeys (fst (s_put a b smp s)))) /\
+  Forall (fun cb => In (pc_key cb) (s_nkeys (fst (s_put a b smp s)))) (snd (s_put a b smp s)).
+Proof.
+  unfold s_put.
+  assert (Hg : forall k, In k (s_nkeys s) -> In k (s_nkeys (s_grow a b s))).
+  { intros k. unfold s_nkeys, s_grow. destruct (s_root s) as [[lvl n]|]; [|intros []]. cbn [s_root].
+    intros H. pose proof (grow_loop_nkeys (Z.min a (sn_time n)) (Z.max b (sn_time n + pow10 lvl)) (max_level - lvl) lvl n k H) as G.
+    destruct (s_grow_loop _ _ _ lvl n). exact G. }
+  unfold s_nkeys at 2 3. unfold s_nkeys in Hg. destruct (s_root (s_grow a b s)) as [[lvl n]|] eqn:E.
+  - destruct (put_node_nkeys lvl a b smp n) as [H1 H2]. destruct (s_put_node lvl a b smp n) as [n' cbs]. cbn [fst snd s_root] in *.
+    split; [intros k Hk; apply H1, Hg, Hk|exact H2].
+  - cbn [fst snd]. rewrite E. split; [exact Hg|constructor].
+Qed.
+
+Lemma s_nkeys_root s1 s2 : s_root s1 = s_root s2 -> s_nkeys s1 = s_nkeys s2.
+Proof. unfold s_nkeys. intros ->. reflexivity. Qed.
+
+Lemma del_node_all : forall lvl thr n, wf lvl n -> sn_time n + pow10 lvl <= thr ->
+  forall k, In k (nkeys lvl n) -> In k (snd (fst (s_del_node lvl thr n))).
+Proof.
+  induction lvl as [|l IH]; intros thr [t p s w ch] Hwf Hthr k Hk; cbn [sn_time] in Hthr.
+  - cbn [s_del_node]. pose proof (pow10_pos 0). replace (thr <? t) with false by lia.
+    replace (t + pow10 0 <=? thr) with true by lia. cbn [fst snd]. exact Hk.
+  - cbn [s_del_node]. pose proof (pow10_pos (S l)). replace (thr <? t) with false by lia.
+    replace (t + pow10 (S l) <=? thr) with true by lia. cbn [fst snd].
+    rewrite nkeys_S in Hk. destruct Hk as [<-|Hk]; [left; reflexivity|]. right.
+    apply okeysN_in in Hk. destruct Hk as (c & Hc & Hk).
+    cbn [wf] in Hwf. destruct Hwf as (_ & Hlen & Hslots).
+    apply in_concat. eexists. split.
+    + rewrite map_map. apply in_map_iff. exists (Some c). split; [reflexivity|exact Hc].
+    + cbn beta iota. pose proof (IH thr c) as G.
+      destruct (s_del_node l thr c) as [[c' cbs] del]. cbn [fst snd] in *. apply G; [|  |exact Hk].
+      * eapply slots_In; eauto.
+      * destruct (slots_bounds _ (pow10 l) (pow10_pos l) ch t c Hslots Hc) as [B1 B2]. rewrite Hlen in B2.
+        rewrite pow10_S in Hthr. lia.
+Qed.
+
+Lemma cb_hits_in l t cbs : In (l, t) cbs -> cb_hits l t cbs = true.
+Proof.
+  intros H. unfold cb_hits. apply existsb_exists. exists (l, t). split; [exact H|]. cbn [fst snd].
+  rewrite Nat.eqb_refl, Z.eqb_refl. reflexivity.
+Qed.
+
+Definition block_deletable (K : Z) : Prop := (K + 1) * pow10 8 <= unix_to_slot max_time_unix.
+
+Lemma del_cbs_all K s : block_deletable K -> seg_ok K s -> forall k, In k (s_nkeys s) -> In k (del_cbs s).
+Proof.
+  intros HK Hok k. unfold s_nkeys, del_cbs, s_delete_before_unix, s_delete_before, seg_ok in *.
+  destruct (s_root s) as [[lvl n]|]; [|intros []]. destruct Hok as (_ & Hwf & _ & [_ Hblk]). intros Hk.
+  pose proof (del_node_all lvl (unix_to_slot max_time_unix) n Hwf ltac:(unfold block_deletable in HK; lia) k Hk) as G.
+  destruct (s_del_node lvl (unix_to_slot max_time_unix) n) as [[n' cbs] del]. cbn [fst snd] in G.
+  destruct del; exact G.
+Qed.
+
+Lemma put_cbs_lookup_some k prof cbs : forall trees key tr,
+  tree_lookup key (fold_left (put_cb_apply k prof) cbs trees) = Some tr ->
+  (exists c, In c cbs /\ key = (k, pc_lvl c, pc_t c)) \/ exists tr', tree_lookup key trees = Some tr'.
+Proof.
+  induction cbs as [|c cbs IH]; intros trees key tr H; [right; exists tr; exact H|]. cbn [fold_left] in H.
+  destruct (IH _ _ _ H) as [(c' & Hc' & E)|(tr' & H')]; [left; exists c'; split; [right; exact Hc'|exact E]|].
+  unfold put_cb_apply in H'. rewrite tree_lookup_store in H'.
+  destruct (tkey_eqb key (k, pc_lvl c, pc_t c)) eqn:E; [|right; exists tr'; exact H'].
+  apply tkey_eqb_true in E. left. exists c. split; [left; reflexivity|exact E].
+Qed.
+
+Lemma seg_store_has k s l : In (k, s) (seg_store k s l).
+Proof.
+  induction l as [|[k1 s1] l IH]; cbn [seg_store]; [left; reflexivity|].
+  destruct (bcmp (sid_key k) (sid_key k1)); [left; reflexivity|left; reflexivity|right; exact IH].
+Qed.
+
+Lemma seg_store_keeps k s l ks : In ks l -> sid_key (fst ks) <> sid_key k -> In ks (seg_store k s l).
+Proof.
+  induction l as [|[k1 s1] l IH]; intros H Hk; [destruct H|]. cbn [seg_store].
+  destruct (bcmp (sid_key k) (sid_key k1)) eqn:E.
+  - destruct H as [<-|H]; [apply bcmp_eq in E; cbn [fst] in Hk; congruence|right; exact H].
+  - right. exact H.
+  - destruct H as [<-|H]; [left; reflexivity|right; apply IH; assumption].
+Qed.
+
+Definition valid_put (K : Z) (pi : put_input) : Prop := valid_range K (fst (pi_ab pi)) (snd (pi_ab pi)).
+
+Lemma segs_ok_after K pis : Forall (valid_put K) pis -> forall ks, In ks (st_segs (st_after pis)) -> seg_ok K (snd ks).
+Proof.
+  induction pis as [|pi pis IH] using rev_ind; intros H ks Hks; [destruct Hks|].
+  apply Forall_app in H. destruct H as [H1 H2]. inversion H2 as [|? ? Hv _]; subst.
+  rewrite st_after_snoc, st_put_none in Hks. cbn [fst st_segs] in Hks. apply seg_store_in in Hks.
+  destruct Hks as [->|Hks]; [|apply IH; assumption]. cbn [snd]. unfold pi_res. apply s_put_ok; [exact Hv|].
+  unfold pi_seg0. destruct (seg_lookup (pi_sid pi) (st_segs (st_after pis))) as [s|] eqn:E; [|exact I].
+  destruct (seg_lookup_in _ _ _ E) as (ks & Hks & _ & <-). exact (IH H1 ks Hks).
+Qed.
+
+Lemma keys_nodes_after pis : forall kb l t tr,
+  tree_lookup (kb, l, t) (st_trees (st_after pis)) = Some tr ->
+  exists ks, In ks (st_segs (st_after pis)) /\ sid_key (fst ks) = kb /\ In (l, t) (s_nkeys (snd ks)).
+Proof.
+  induction pis as [|pi pis IH] using rev_ind; intros kb l t tr H; [discriminate|].
+  rewrite st_after_snoc, st_put_none in H |- *. cbn [fst st_segs st_trees] in H |- *.
+  set (A := st_after pis) in *. destruct (Inv2_after pis) as [HS _]. fold A in HS.
+  destruct (s_put_nkeys (fst (pi_ab pi)) (snd (pi_ab pi)) (t_total (pi_tree pi)) (pi_seg0 pi A)) as [P1 P2].
+  fold (pi_res pi A) in P1, P2.
+  destruct (beqb (sid_key (pi_sid pi)) kb) eqn:Eb;
+    [apply beqb_true in Eb; rename Eb into Ek
+    |assert (Ek : sid_key (pi_sid pi) <> kb) by (intros E; rewrite E, beqb_refl in Eb; discriminate)].
+  - subst kb. exists (pi_sid pi, fst (pi_res pi A)). split; [apply seg_store_has|]. split; [reflexivity|]. cbn [snd].
+    destruct (put_cbs_lookup_some _ _ _ _ _ _ H) as [(c & Hc & E)|(tr' & H')].
+    + injection E as -> ->. rewrite Forall_forall in P2. apply (P2 c Hc).
+    + destruct (IH _ _ _ _ H') as (ks & Hks & Hk & Hn). apply P1.
+      rewrite (s_nkeys_root (pi_seg0 pi A) (snd ks)); [exact Hn|].
+      unfold pi_seg0. replace (seg_lookup (pi_sid pi) (st_segs A)) with (Some (snd ks)); [reflexivity|].
+      rewrite <- (sorted_lookup _ HS ks Hks). clear -Hk. induction (st_segs A) as [|[k1 s1] l' IHl]; [reflexivity|].
+      cbn [seg_lookup]. unfold sid_eqb. rewrite Hk, IHl. reflexivity.
+  - rewrite put_cbs_lookup_other in H by exact Ek. destruct (IH _ _ _ _ H) as (ks & Hks & Hk & Hn).
+    exists ks. split; [apply seg_store_keeps; [exact Hks|congruence]|auto].
+Qed.
+
+Lemma keys_are_nodes_after K pis : block_deletable K -> Forall (valid_put K) pis -> keys_are_nodes (st_after pis).
+Proof.
+  intros HK Hv ks l t tr Hks H. apply cb_hits_in.
+  destruct (keys_nodes_after pis _ _ _ _ H) as (ks' & Hks' & Hk & Hn).
+  destruct (Inv2_after pis) as [HS _].
+  assert (E : snd ks' = snd ks).
+  { pose proof (sorted_lookup _ HS ks Hks) as L1. pose proof (sorted_lookup _ HS ks' Hks') as L2.
+    assert (L : seg_lookup (fst ks') (st_segs (st_after pis)) = seg_lookup (fst ks) (st_segs (st_after pis))).
+    { clear -Hk. induction (st_segs (st_after pis)) as [|[k1 s1] l' IHl]; [reflexivity|].
+      cbn [seg_lookup]. unfold sid_eqb. rewrite Hk, IHl. reflexivity. }
+    congruence. }
+  rewrite <- E. apply (del_cbs_all K); [exact HK|apply (segs_ok_after K pis Hv ks' Hks')|exact Hn].
+Qed.
+
+(* C11_delete *)
+Lemma delete_complete K sel pis : block_deletable K -> Forall (valid_put K) pis -> key_consistent pis ->
+  st_equiv (st_delete sel (st_after pis)) (st_after (filter (keep sel) pis)).
+Proof. intros HK Hv Hc. apply delete_equiv; [exact Hc|apply (keys_are_nodes_after K); assumption]. Qed.
+
+Lemma delete_then_run K sel pis rt ops : block_deletable K -> Forall (valid_put K) pis -> key_consistent pis ->
+  snd (st_run rt ops (st_delete sel (st_after pis))) = snd (st_run rt ops (st_after (filter (keep sel) pis))).
+Proof. intros HK Hv Hc. apply st_run_equiv, (delete_complete K); assumption. Qed.
+
+(* consequences spelled out: a deleted series answers nothing, its keys hold no tree, others are unchanged *)
+Lemma delete_no_trees K sel pis : block_deletable K -> Forall (valid_put K) pis -> key_consistent pis ->
+  forall pi l t, In pi pis -> sel_matches sel (pi_sid pi) = true ->
+  tree_lookup (sid_key (pi_sid pi), l, t) (st_trees (st_delete sel (st_after pis))) = None /\
+  seg_lookup (pi_sid pi) (st_segs (st_delete sel (st_after pis))) = None.
+Proof.
+  intros HK Hv Hc pi l t Hpi Hm. destruct (delete_complete K sel pis HK Hv Hc) as [Hs Ht].
+  rewrite Hs, Ht.
+  assert (Hnone : series_puts (sid_key (pi_sid pi)) (filter (keep sel) pis) = []).
+  { destruct (series_filter_cases sel pis (sid_key (pi_sid pi)) Hc) as [[_ Hall]|[H _]]; [|exact H]. exfalso.
+    assert (Hin : In pi (series_puts (sid_key (pi_sid pi)) pis)) by (apply filter_In; split; [exact Hpi|apply beqb_refl]).
+    specialize (Hall pi Hin). unfold keep in Hall. rewrite Hm in Hall. discriminate. }
+  destruct (agree_after (sid_key (pi_sid pi)) (filter (keep sel) pis)) as [G1 G2]. rewrite Hnone in G1, G2.
+  split; [apply G2|apply G1; reflexivity].
+Qed.
+
+Lemma delete_other_unchanged K sel pis : block_deletable K -> Forall (valid_put K) pis -> key_consistent pis ->
+  forall pi, In pi pis -> sel_matches sel (pi_sid pi) = false ->
+  agree_on (sid_key (pi_sid pi)) (st_delete sel (st_after pis)) (st_after pis).
+Proof.
+  intros HK Hv Hc pi Hpi Hm. eapply agree_trans; [apply delete_agree; [exact Hc|apply (keys_are_nodes_after K); assumption]|].
+  eapply agree_trans; [apply agree_after|]. apply agree_sym. eapply agree_trans; [apply agree_after|].
+  destruct (series_filter_cases sel pis (sid_key (pi_sid pi)) Hc) as [[H _]|[_ Hall]]; [rewrite H; apply agree_refl|]. exfalso.
+  assert (Hin : In pi (series_puts (sid_key (pi_sid pi)) pis)) by (apply filter_In; split; [exact Hpi|apply beqb_refl]).
+  specialize (Hall pi Hin). unfold keep in Hall. rewrite Hm in Hall. discriminate.
+Qed.
